@@ -13,12 +13,15 @@ Every Rust statement must match one of a small table of statement forms (each ma
 rs2lean's expression translator).  A statement outside the table, a changed message layout or a
 changed signature is a TRANSLATE-ERROR (exit 2) — never silently skipped.
 
-The byte-level helpers the statements call (AttributionData::{new, update, add_hmacs,
-write_downstream_hmacs, crypt, shift_right, shift_left, verify, get_hmac...}, the attribution block of
-process_onion_failure_inner, process_fulfill_attribution_data, decode_fulfill_attribution_data) have
-HAND-WRITTEN mirrors in Model/Onion.lean; their Rust text is PINNED here (sha256 of the
-comment-stripped, whitespace-normalised body): a change of shape is a TRANSLATE-ERROR telling which
-mirror has to be re-validated.
+process_fulfill_attribution_data / decode_fulfill_attribution_data (the fulfil direction) are translated the same
+way (hop count / position formulas through rs2lean).
+
+The byte-level helpers the statements call (AttributionData::{new, update, add_hmacs, write_downstream_hmacs,
+crypt, shift_right, shift_left, verify, get_hmac, get_hmac_mut, get_hold_time_bytes}) have hand-written mirrors in
+Model/Onion.lean: every statement of theirs must match its form (TRANSLATE-ERROR otherwise) and every index /
+offset / length expression is TRANSLATED into Generated/AttrIdx.lean; Proofs/OnionAttrIdx.lean proves that the
+mirrors use exactly those formulas.  Still PINNED by sha256 of the normalised text: the attribution block of
+process_onion_failure_inner and the three key derivations.
 """
 import re, sys, os, hashlib
 sys.path.insert(0, os.path.dirname(__file__))
@@ -304,6 +307,246 @@ def packet_fns(L, ou):
           'def relayFailurePacket (C : OnionCrypto) (k : FailKeysX) (secondary : Option FailKeysX) (p : FailPkt) (hold_time : Option Nat) : FailPkt :='] + lines + ['  p', '']
     L += ua + bu + cf + bf + pf + ge
 
+
+# ---------------------------------------------------------------------------------------------
+# the fulfil direction of attribution data: process_fulfill_attribution_data (every hop on the way back) and
+# decode_fulfill_attribution_data (the sender's hop loop) — statement by statement; the hop count / position
+# formulas go through rs2lean's expression translator
+
+def fulfil_fns(L, ou):
+    # ---- process_fulfill_attribution_data ----------------------------------------------------
+    body = fn_of(ou, 'process_fulfill_attribution_data', ['attribution_data', 'shared_secret', 'hold_time'])
+    stmts, tail = split_stmts(body)
+    if tail != 'attribution_data': raise TranslateError("process_fulfill_attribution_data: tail is `%s`" % tail)
+    forms = [
+        Form(r'let mut attribution_data = attribution_data\.map_or\(AttributionData::new\(\), \|mut attribution_data\| \{ attribution_data\.shift_right\(\); attribution_data \}\);',
+             ['  let attribution_data := Option.elim attribution_data Attr.new (fun attribution_data =>',
+              '    let attribution_data := attribution_data.shiftRight',
+              '    attribution_data)']),
+        Form(r'attribution_data\.update\(&\[\], &shared_secret, hold_time\);', '  let attribution_data := attribution_data.update C k.um [] hold_time'),
+        Form(r'attribution_data\.crypt\(&shared_secret\);', '  let attribution_data := attribution_data.crypt C k.ammagext'),
+    ]
+    lines = translate_stmts('process_fulfill_attribution_data', stmts, forms, None)
+    if len(stmts) != 3 or len(lines) != 5: raise TranslateError("process_fulfill_attribution_data: expected map_or(new, shift_right) + update + crypt, got %d statements" % len(stmts))
+    L += ['/-- mirrors lightning/src/ln/onion_utils.rs::process_fulfill_attribution_data (translated statement by statement) -/',
+          'def processFulfillAttributionData (C : OnionCrypto) (k : FailKeysX) (attribution_data : Option Attr) (hold_time : Nat) : Attr :='] + lines + ['  attribution_data', '']
+
+    # ---- decode_fulfill_attribution_data -----------------------------------------------------
+    body = fn_of(ou, 'decode_fulfill_attribution_data', ['secp_ctx', 'logger', 'path', 'outer_session_priv', 'attribution_data'])
+    stmts, tail = split_stmts(body)
+    if tail != 'hold_times': raise TranslateError("decode_fulfill_attribution_data: tail is `%s`" % tail)
+    em = Emitter(funs={'min': lambda a: '(Nat.min %s %s)' % (a[0], a[1])}, fields={'path.hops': 'path_hops'},
+                 methods={'len': lambda recv, a: '%s_len' % recv})
+    out = {}
+    def hop_count(m, c):
+        out['count'] = em.e(parse_expr(m.group(1))); return None
+    def loop(m, c):
+        if m.group(1) != 'attributable_hop_count': raise TranslateError("decode_fulfill_attribution_data: loop bound is `%s`" % m.group(1))
+        inner, itail = split_stmts('{' + m.group(2) + '}')
+        if itail is not None:
+            inner.append(itail)
+        def pos(mm, cc):
+            out['position'] = em.e(parse_expr(mm.group(1))); return None
+        def vfy(mm, cc):
+            out['verify'] = True; return None
+        def mt(mm, cc):
+            out['match'] = True; return None
+        def cr(mm, cc):
+            out['crypt'] = len(out); return None
+        iforms = [
+            Form(r'attribution_data\.crypt\(shared_secret\.as_ref\(\)\);', cr),
+            Form(r'let position = (.*);', pos),
+            Form(r'let res = attribution_data\.verify\(&Vec::new\(\), shared_secret\.as_ref\(\), position\);', vfy),
+            Form(r'match res \{ Ok\(hold_time\) => \{ hold_times\.push\(hold_time\); attribution_data\.shift_left\(\); \},? Err\(\(\)\) => \{ (?:log_[a-z]+!\((?:[^()]|\([^()]*\))*\); )?break; \},? \}', mt),
+        ]
+        translate_stmts('decode_fulfill_attribution_data[loop]', inner, iforms, None)
+        if len(inner) != 4 or out.get('crypt') != 1 or not all(x in out for x in ('position', 'verify', 'match')):
+            raise TranslateError("decode_fulfill_attribution_data: loop body is not crypt; position; verify; match (got %s)" % inner)
+        return None
+    forms = [
+        Form(r'let mut hold_times = Vec::new\(\);', None),
+        Form(r'let shared_secrets = construct_onion_keys_generic\(secp_ctx, &path\.hops, None, outer_session_priv\) ?\.map\(\|\(shared_secret, _, _, _, _\)\| shared_secret\);', None),
+        Form(r'let attributable_hop_count = (.*);', hop_count),
+        Form(r'for \(route_hop_idx, shared_secret\) in shared_secrets\.enumerate\(\)\.take\(([a-z_]+)\) \{ (.*) \}', loop),
+    ]
+    out['count'] = None
+    translate_stmts('decode_fulfill_attribution_data', stmts, forms, None)
+    if len(stmts) != 4 or not out.get('count') or 'position' not in out:
+        raise TranslateError("decode_fulfill_attribution_data: expected hold_times / shared_secrets / attributable_hop_count / for-loop")
+    L += ['/-- `let attributable_hop_count = ...` of decode_fulfill_attribution_data (translated expression; `path_hops_len` = `path.hops.len()`) -/',
+          'def fulfillAttributableHopCount (path_hops_len : Nat) : Nat := %s' % out['count'], '',
+          '/-- `let position = ...` in the hop loop of decode_fulfill_attribution_data (translated expression) -/',
+          'def fulfillPosition (path_hops_len attributable_hop_count route_hop_idx : Nat) : Nat := %s' % out['position'], '',
+          '/-- the hop loop of decode_fulfill_attribution_data (statement order checked by the translator): `crypt`, `let position`,',
+          '    `verify(&[], .., position)`; `Ok(hold_time)` => push, `shift_left`, next hop; `Err(())` => `break` -/',
+          'def decodeFulfillLoop (C : OnionCrypto) (path_hops_len attributable_hop_count : Nat) : Nat → List FailKeysX → Attr → List Nat → List Nat',
+          '  | _, [], _, hold_times => hold_times',
+          '  | route_hop_idx, k :: rest, attribution_data, hold_times =>',
+          '    let attribution_data := attribution_data.crypt C k.ammagext',
+          '    let position := fulfillPosition path_hops_len attributable_hop_count route_hop_idx',
+          '    match attribution_data.verify C k.um [] position with',
+          '    | some hold_time => decodeFulfillLoop C path_hops_len attributable_hop_count (route_hop_idx + 1) rest attribution_data.shiftLeft (hold_times ++ [hold_time])',
+          '    | none => hold_times', '',
+          '/-- mirrors lightning/src/ln/onion_utils.rs::decode_fulfill_attribution_data: `keys` = the per-hop keys of `path.hops` in route order',
+          '    (`shared_secrets.enumerate().take(attributable_hop_count)`) -/',
+          'def decodeFulfillAttributionData (C : OnionCrypto) (keys : List FailKeysX) (attribution_data : Attr) : List Nat :=',
+          '  let attributable_hop_count := fulfillAttributableHopCount keys.length',
+          '  decodeFulfillLoop C keys.length attributable_hop_count 0 (keys.take attributable_hop_count) attribution_data []', '']
+
+# ---------------------------------------------------------------------------------------------
+# AttributionData byte-level helpers: every statement must match its form (shape = what the hand-written mirror in
+# Model/Onion.lean does with the buffers); every INDEX / OFFSET / LENGTH expression is translated through rs2lean
+# into Generated/AttrIdx.lean, and Proofs/OnionAttrIdx.lean proves (by `rfl`, for all arguments) that the mirrors use
+# exactly these formulas — an edited index expression breaks a theorem, not a text pin.
+
+def attr_idx(ou):
+    imp = ou.index('impl AttributionData {', ou.index('impl_writeable!(AttributionData'))
+    src = ou[imp:]
+    em = Emitter()
+    E = lambda x: em.e(parse_expr(x))
+    D = []   # (doc, name, params, body)
+    def fn(name, want):
+        params, ret, body = find_fn(src, name)
+        ps = [n for n, t in parse_params(params)]
+        if ps != want: raise TranslateError("AttributionData::%s signature changed: %s" % (name, ps))
+        return split_stmts(body)
+    def run(name, stmts, forms, n):
+        if len(stmts) != n: raise TranslateError("AttributionData::%s: expected %d statements, got %d" % (name, n, len(stmts)))
+        translate_stmts('AttributionData::' + name, stmts, forms, None)
+    def add(doc, name, params, body):
+        D.append((doc, name, params, body)); return None
+    # ---- new ------------------------------------------------------------------------------------
+    _, _, b = find_fn(ou, 'new', after='pub struct AttributionData')
+    m = re.fullmatch(r'\{ Self \{ hold_times: \[0; (.*?)\], hmacs: \[0; (.*?)\] \} \}', norm(b))
+    if not m: raise TranslateError("AttributionData::new changed: %s" % norm(b))
+    add('AttributionData::new: `hold_times: [0; ..]`', 'holdTimesLen', '', E(m.group(1)))
+    add('AttributionData::new: `hmacs: [0; ..]`', 'hmacsLen', '', E(m.group(2)))
+    # ---- crypt ----------------------------------------------------------------------------------
+    stmts, tail = fn('crypt', ['shared_secret'])
+    run('crypt', stmts, [
+        Form(r'let ammagext = gen_ammagext_from_shared_secret\(&shared_secret\);', None),
+        Form(r'let mut chacha = ChaCha20::new\(Key::new\(ammagext\), Nonce::new\(\[0; 12\]\), 0\);', None),
+        Form(r'chacha\.apply_keystream\(&mut self\.hold_times\);', None),
+        Form(r'chacha\.apply_keystream\(&mut self\.hmacs\);', None)], 4)
+    if [s for s in stmts if 'apply_keystream' in s] != ['chacha.apply_keystream(&mut self.hold_times);', 'chacha.apply_keystream(&mut self.hmacs);']:
+        raise TranslateError("AttributionData::crypt: keystream order changed")
+    # ---- get_hmac / get_hmac_mut / get_hold_time_bytes --------------------------------------------
+    for name, rx, lean in [('get_hmac', r'&self\.hmacs\[(.*?)\.\.(.*)\]', 'getHmac'), ('get_hmac_mut', r'&mut self\.hmacs\[(.*?)\.\.(.*)\]', 'getHmacMut'),
+                           ('get_hold_time_bytes', r'&self\.hold_times\[(.*?)\.\.(.*)\]', 'getHoldTimeBytes')]:
+        stmts, tail = fn(name, ['idx'])
+        m = re.fullmatch(rx, tail or '')
+        if stmts or not m: raise TranslateError("AttributionData::%s changed: %s" % (name, tail))
+        add('AttributionData::%s: the slice `[start..end]`' % name, lean + 'Range', '(idx : Nat)', '(%s, %s)' % (E(m.group(1)), E(m.group(2))))
+    # ---- update ---------------------------------------------------------------------------------
+    stmts, tail = fn('update', ['message', 'shared_secret', 'hold_time'])
+    run('update', stmts, [
+        Form(r'let hold_time_bytes: \[u8; 4\] = hold_time\.to_be_bytes\(\);', None),
+        Form(r'self\.hold_times\[\.\.(.*?)\]\.copy_from_slice\(&hold_time_bytes\);', lambda m, c: add('AttributionData::update: `hold_times[..end].copy_from_slice(hold_time_bytes)`', 'updateHoldTimeEnd', '', E(m.group(1)))),
+        Form(r'self\.add_hmacs\(shared_secret, message\);', None)], 3)
+    # ---- add_hmacs ------------------------------------------------------------------------------
+    stmts, tail = fn('add_hmacs', ['shared_secret', 'message'])
+    def add_hmacs_loop(m, c):
+        add('AttributionData::add_hmacs: `for hmac_idx in 0..N`', 'addHmacsIters', '', E(m.group(1)))
+        inner, itail = split_stmts('{' + m.group(2) + '}')
+        run('add_hmacs[loop]', inner, [
+            Form(r'let position: usize = (.*);', lambda mm, cc: add('AttributionData::add_hmacs: `let position = ..`', 'addHmacsPosition', '(hmac_idx : Nat)', E(mm.group(1)))),
+            Form(r'let mut hmac_engine = HmacEngine::<Sha256>::new\(&um\);', None),
+            Form(r'hmac_engine\.input\(&message\);', None),
+            Form(r'hmac_engine\.input\(&self\.hold_times\[\.\.(.*)\]\);', lambda mm, cc: add('AttributionData::add_hmacs: `hold_times[..end]` fed to the HMAC', 'addHmacsHoldTimesEnd', '(position : Nat)', E(mm.group(1)))),
+            Form(r'self\.write_downstream_hmacs\(position, &mut hmac_engine\);', None),
+            Form(r'let full_hmac = Hmac::from_engine\(hmac_engine\)\.to_byte_array\(\);', None),
+            Form(r'let hmac = &full_hmac\[\.\.(.*)\];', lambda mm, cc: add('AttributionData::add_hmacs: truncation `full_hmac[..end]`', 'addHmacsTruncLen', '', E(mm.group(1)))),
+            Form(r'self\.get_hmac_mut\(hmac_idx\)\.copy_from_slice\(hmac\);', None)], 8)
+        want = ['let position', 'let mut hmac_engine', 'hmac_engine.input(&message)', 'hmac_engine.input(&self.hold_times', 'self.write_downstream_hmacs', 'let full_hmac', 'let hmac =', 'self.get_hmac_mut']
+        if not all(x.startswith(w) for x, w in zip(inner, want)): raise TranslateError("AttributionData::add_hmacs: statement order changed")
+        return None
+    run('add_hmacs', stmts, [
+        Form(r'let um: \[u8; 32\] = gen_um_from_shared_secret\(&shared_secret\);', None),
+        Form(r'for hmac_idx in 0\.\.(.*?) \{ (.*) \}', add_hmacs_loop)], 2)
+    # ---- write_downstream_hmacs -------------------------------------------------------------------
+    stmts, tail = fn('write_downstream_hmacs', ['position', 'w'])
+    def ds_loop(m, c):
+        add('AttributionData::write_downstream_hmacs: `for j in 0..N`', 'downstreamIters', '(position : Nat)', E(m.group(1)))
+        inner, itail = split_stmts('{' + m.group(2) + '}')
+        if inner[:1] != ['w.input(self.get_hmac(hmac_idx));']: raise TranslateError("write_downstream_hmacs: loop does not start with the HMAC input")
+        mm = re.fullmatch(r'let block_size = (.*);', inner[1] if len(inner) == 3 else '')
+        if not mm or inner[2] != 'hmac_idx += block_size;': raise TranslateError("write_downstream_hmacs: loop body changed: %s" % inner)
+        add('AttributionData::write_downstream_hmacs: `let block_size = ..; hmac_idx += block_size`', 'downstreamNext', '(hmac_idx j : Nat)', '(hmac_idx + %s)' % E(mm.group(1)))
+        return None
+    run('write_downstream_hmacs', stmts, [
+        Form(r'let mut hmac_idx = (.*);', lambda m, c: add('AttributionData::write_downstream_hmacs: `let mut hmac_idx = ..`', 'downstreamInit', '(position : Nat)', E(m.group(1)))),
+        Form(r'for j in 0\.\.(.*?) \{ (.*) \}', ds_loop)], 2)
+    # ---- verify ---------------------------------------------------------------------------------
+    stmts, tail = fn('verify', ['message', 'shared_secret', 'position'])
+    if tail != 'Ok(hold_time)': raise TranslateError("AttributionData::verify: tail is %s" % tail)
+    run('verify', stmts, [
+        Form(r'let um = gen_um_from_shared_secret\(shared_secret\);', None),
+        Form(r'let mut hmac = HmacEngine::<Sha256>::new\(&um\);', None),
+        Form(r'hmac\.input\(&message\);', None),
+        Form(r'hmac\.input\(&self\.hold_times\[\.\.(.*)\]\);', lambda m, c: add('AttributionData::verify: `hold_times[..end]` fed to the HMAC', 'verifyHoldTimesEnd', '(position : Nat)', E(m.group(1)))),
+        Form(r'self\.write_downstream_hmacs\(position, &mut hmac\);', None),
+        Form(r'let expected_hmac = &Hmac::from_engine\(hmac\)\.to_byte_array\(\)\[\.\.(.*)\];', lambda m, c: add('AttributionData::verify: truncation `[..end]`', 'verifyTruncLen', '', E(m.group(1)))),
+        Form(r'let hmac_idx = (.*);', lambda m, c: add('AttributionData::verify: `let hmac_idx = ..`', 'verifyHmacIdx', '(position : Nat)', E(m.group(1)))),
+        Form(r'let actual_hmac = self\.get_hmac\(hmac_idx\);', None),
+        Form(r'if !fixed_time_eq\(expected_hmac, actual_hmac\) \{ return Err\(\(\)\); \}', None),
+        Form(r'let hold_time: u32 = u32::from_be_bytes\(self\.get_hold_time_bytes\((\d+)\)\.try_into\(\)\.unwrap\(\)\);', lambda m, c: add('AttributionData::verify: which hold time is returned', 'verifyHoldTimeIdx', '', m.group(1)))], 10)
+    want = ['let um', 'let mut hmac', 'hmac.input(&message)', 'hmac.input(&self.hold_times', 'self.write_downstream_hmacs', 'let expected_hmac', 'let hmac_idx', 'let actual_hmac', 'if !fixed_time_eq', 'let hold_time']
+    if not all(x.startswith(w) for x, w in zip(stmts, want)): raise TranslateError("AttributionData::verify: statement order changed")
+    # ---- shift_left / shift_right -----------------------------------------------------------------
+    COPY = r'self\.hmacs\.copy_within\((.*?)\.\.(.*?), (.*?)\);'
+    def upd(stmt, var):
+        mm = re.fullmatch(r'([a-z_]+) (\+=|-=) (.*);', stmt)
+        if not mm or mm.group(1) != var: raise TranslateError("shift loop: expected an update of %s, got `%s`" % (var, stmt))
+        return '(%s %s %s)' % (var, mm.group(2)[0], E(mm.group(3)))
+    def shift(name, lean, ht_rx, ht_out, order, has_break):
+        stmts, tail = fn(name, [])
+        if len(stmts) != 5: raise TranslateError("AttributionData::%s: expected 5 statements" % name)
+        m = re.fullmatch(ht_rx, stmts[0])
+        if not m: raise TranslateError("AttributionData::%s: hold-time copy_within changed: %s" % (name, stmts[0]))
+        ht_out(m)
+        init = []
+        for st, var in zip(stmts[1:4], ['src_idx', 'dest_idx', 'copy_len']):
+            mm = re.fullmatch(r'let mut %s = (.*);' % var, st)
+            if not mm: raise TranslateError("AttributionData::%s: expected `let mut %s`, got `%s`" % (name, var, st))
+            init.append(E(mm.group(1)))
+        add('AttributionData::%s: initial (src_idx, dest_idx, copy_len)' % name, lean + 'Init', '', '(%s, %s, %s)' % tuple(init))
+        m = re.fullmatch(r'for (?:_|i) in 0\.\.(.*?) \{ (.*) \}', stmts[4])
+        if not m: raise TranslateError("AttributionData::%s: loop changed" % name)
+        add('AttributionData::%s: `for _ in 0..N`' % name, lean + 'Iters', '', E(m.group(1)))
+        inner, itail = split_stmts('{' + m.group(2) + '}')
+        mm = re.fullmatch(COPY, inner[0])
+        if not mm: raise TranslateError("AttributionData::%s: hmacs.copy_within changed: %s" % (name, inner[0]))
+        add('AttributionData::%s: `hmacs.copy_within(start..end, dest)`' % name, lean + 'Copy', '(src_idx dest_idx copy_len : Nat)',
+            '(%s, %s, %s)' % (E(mm.group(1)), E(mm.group(2)), E(mm.group(3))))
+        rest = inner[1:]
+        if has_break:
+            mb = re.fullmatch(r'if i == (.*?) \{ break; \}', rest[0] if rest else '')
+            if not mb: raise TranslateError("AttributionData::%s: break guard changed" % name)
+            add('AttributionData::%s: the iteration after whose copy the loop breaks (its index updates would underflow)' % name, lean + 'BreakAt', '', E(mb.group(1)))
+            rest = rest[1:]
+        if len(rest) != 3: raise TranslateError("AttributionData::%s: expected 3 index updates, got %s" % (name, rest))
+        lets = ['let %s := %s' % (var, upd(st, var)) for st, var in zip(rest, order)]
+        add('AttributionData::%s: the index updates at the end of an iteration, in source order' % name, lean + 'Next', '(src_idx dest_idx copy_len : Nat)',
+            '\n  ' + '\n  '.join(lets) + '\n  (src_idx, dest_idx, copy_len)')
+    shift('shift_left', 'shiftLeft', r'self\.hold_times\.copy_within\((.*?)\.\., (.*?)\);',
+          lambda m: add('AttributionData::shift_left: `hold_times.copy_within(src.., dest)`', 'shiftLeftHt', '', '(%s, %s)' % (E(m.group(1)), E(m.group(2)))),
+          ['src_idx', 'dest_idx', 'copy_len'], False)
+    shift('shift_right', 'shiftRight', r'self\.hold_times\.copy_within\(\.\.(.*?), ([A-Z_a-z0-9 *+-]+)\);',
+          lambda m: add('AttributionData::shift_right: `hold_times.copy_within(..end, dest)`', 'shiftRightHt', '', '(%s, %s)' % (E(m.group(1)), E(m.group(2)))),
+          ['copy_len', 'src_idx', 'dest_idx'], True)
+    L = ['/- GENERATED by tools/gen_onion_fail.py from lightning/src/ln/onion_utils.rs (impl AttributionData) — do not edit.',
+         '   Every index / offset / length expression of the byte-level helpers, translated through rs2lean; the statement',
+         '   SHAPE of each helper is checked by the translator (TRANSLATE-ERROR otherwise).  Proofs/OnionAttrIdx.lean proves',
+         '   that the hand-written mirrors of Model/Onion.lean use exactly these formulas. -/',
+         'import LdkModel.Generated.Consts', 'set_option linter.unusedVariables false', 'namespace Ldk.Onion.AttrIdx', 'open Ldk', '']
+    for doc, name, params, body in D:
+        ty = 'Nat'
+        if name.startswith('shift') and name.endswith(('Init', 'Copy', 'Next')): ty = 'Nat × Nat × Nat'
+        if name.endswith(('Range', 'Ht')): ty = 'Nat × Nat'
+        L += ['/-- %s -/' % doc, 'def %s %s: %s := %s' % (name, params + ' ' if params else '', ty, body), '']
+    L.append('end Ldk.Onion.AttrIdx')
+    return '\n'.join(L) + '\n'
+
 # ---------------------------------------------------------------------------------------------
 # pins: hand-written mirrors in Model/Onion.lean
 
@@ -313,19 +556,9 @@ PINS = {
 
 def pin_targets(ou):
     t = {}
-    imp = ou.index('impl AttributionData {', ou.index('impl_writeable!(AttributionData'))
-    for name, mirror in [('crypt', 'Attr.crypt'), ('add_hmacs', 'Attr.addHmacs / Attr.hmacFor'),
-                         ('write_downstream_hmacs', 'Attr.downstreamHmacs'), ('verify', 'Attr.verify'),
-                         ('shift_left', 'Attr.shiftLeft'), ('shift_right', 'Attr.shiftRight'), ('get_hmac', 'Attr.getHmac'),
-                         ('get_hmac_mut', 'Attr.addHmacs (setSlice)'), ('get_hold_time_bytes', 'Attr.verify'), ('update', 'Attr.update')]:
-        p, r, b = find_fn(ou[imp:], name)
-        t['AttributionData::' + name] = (norm(p + ' ' + r + ' ' + b), mirror)
-    p, r, b = find_fn(ou, 'new', after='pub struct AttributionData')
-    t['AttributionData::new'] = (norm(b), 'Attr.new')
-    p, r, b = find_fn(ou, 'process_fulfill_attribution_data')
-    t['process_fulfill_attribution_data'] = (norm(b), 'fulfillAttr')
-    p, r, b = find_fn(ou, 'decode_fulfill_attribution_data')
-    t['decode_fulfill_attribution_data'] = (norm(b), 'decodeFulfillAttr / decodeFulfillGo')
+    # AttributionData::{new, crypt, add_hmacs, write_downstream_hmacs, verify, shift_left, shift_right, get_hmac, get_hmac_mut,
+    # get_hold_time_bytes, update}: statement forms + translated index expressions (attr_idx), no text pin any more;
+    # process_fulfill_attribution_data / decode_fulfill_attribution_data: translated (fulfil_fns)
     _, _, b = find_fn(ou, 'process_onion_failure_inner')
     b = strip_comments(b)
     i = b.find('let attributable_hop_count')
@@ -374,6 +607,11 @@ def pins(L, ou):
 
 def main(out_path):
     ou = rd('lightning/src/ln/onion_utils.rs')
+    idx_text = attr_idx(ou)
+    idx_path = os.path.join(os.path.dirname(out_path), 'AttrIdx.lean')
+    if (open(idx_path).read() if os.path.exists(idx_path) else None) != idx_text:
+        os.makedirs(os.path.dirname(idx_path), exist_ok=True)
+        open(idx_path, 'w').write(idx_text)
     L = ['/- GENERATED by tools/gen_onion_fail.py from the Rust sources (onion_utils.rs, msgs.rs, util/ser.rs, wire.rs) — do not edit.',
          '   Regenerated on every check.  Failure-relay path of C14: message layout, update_fail_htlc_wire_len,',
          '   build_(unencrypted_)failure_packet, update_attribution_data, crypt_failure_packet, process_failure_packet,',
@@ -382,6 +620,7 @@ def main(out_path):
     layout(L)
     wire_len(L, ou)
     packet_fns(L, ou)
+    fulfil_fns(L, ou)
     pin_errs = pins(L, ou)
     L.append('end Ldk.Onion')
     text = '\n'.join(L) + '\n'
